@@ -551,6 +551,40 @@ int main(int argc, char** argv) {
         vh::obs_add("ratios_checked");
     }
 
+    //---- several default-designed converters of DIFFERENT rates built one after another in one process (every shard runs this):
+    //a design cached from the first instance must not leak into the next ones
+    {
+        vh::Rng r = vh::rng_for("crossconfig", uint64_t(vh::g.shard));
+        std::vector<std::pair<int, int>> seq = {{1, 2}, {1, 4}, {1, 5}, {3, 1}, {2, 1}, {5, 1}, {3, 2}, {2, 3}, {5, 3}, {1, 3}, {4, 1}, {1, 2}};
+        for (size_t i = seq.size(); i > 1; --i) {
+            std::swap(seq[i - 1], seq[r.below(i)]);
+        }
+        for (auto [L, M] : seq) {
+            Conv c;
+            c.L = L;
+            c.M = M;
+            c.h = dl::design_multirate_fir(L, M);
+            c.default_h = true;
+            const int l = L, m = M;
+            if (M == 1) {
+                c.kind = "FIRInterpolator";
+                c.make = [l]() -> std::shared_ptr<dl::IResampler> { return std::make_shared<dl::FIRInterpolator>(l); };
+            } else if (L == 1) {
+                c.kind = "FIRDecimator";
+                c.make = [m]() -> std::shared_ptr<dl::IResampler> { return std::make_shared<dl::FIRDecimator>(m); };
+            } else {
+                c.kind = "FIRRateConverter";
+                c.make = [l, m]() -> std::shared_ptr<dl::IResampler> { return std::make_shared<dl::FIRRateConverter>(l, m); };
+            }
+            check_conv(c, r, false);
+            Conv c2 = c;
+            c2.kind = "FIRResampler";
+            c2.make = [l, m]() -> std::shared_ptr<dl::IResampler> { return std::make_shared<dl::FIRResampler>(l, m); };
+            check_conv(c2, r, false);
+            vh::obs_add("cross_configuration_instances", 2);
+        }
+    }
+
     //resample(): all reduced p,q <= 16 (+ non-reduced and audio), several lengths
     std::vector<std::pair<int, int>> pq = ratios;
     pq.push_back({1, 1});
